@@ -331,7 +331,21 @@ impl Sim {
             let id: Val = self.hashes[k].clone().into_val(e);
             let s: u32 = q("get_operation_state", args(e, [id])).and_then(|v| tlc_state(e, &v)).unwrap_or(9);
             let l: u32 = q("get_operation_ledger", args(e, [id])).and_then(|v| u32::try_from_val(e, &v).ok()).unwrap_or(0);
-            let c = ["U", "W", "R", "D"].get(s as usize).copied().unwrap_or("?");
+            let mut c = ["U", "W", "R", "D"].get(s as usize).copied().unwrap_or("?");
+            // the four boolean views of the controller must say what the state says (Unset: none,
+            // Waiting: exists + pending, Ready: + ready, Done: exists + done); `X` = they do not
+            let view = |f: &str| -> Option<bool> { q(f, args(e, [id])).and_then(|v| bool::try_from_val(e, &v).ok()) };
+            let views = [view("operation_exists"), view("is_operation_pending"), view("is_operation_ready"), view("is_operation_done")];
+            let want: [bool; 4] = match s {
+                0 => [false, false, false, false],
+                1 => [true, true, false, false],
+                2 => [true, true, true, false],
+                3 => [true, false, false, true],
+                _ => [false; 4],
+            };
+            if s <= 3 && views.iter().zip(want.iter()).any(|(g, w)| *g != Some(*w)) {
+                c = "X";
+            }
             st.push(format!("{}:{}", c, l));
         }
         let (c, last): (u32, Option<(u32, u32)>) = q_target(e, &self.target);
@@ -686,6 +700,28 @@ fn directed(t: &mut Trace) {
     s.check(t, &[], &[Ctx::Create], &[]);
     s.cancel(t, &Op(o2), 3, &[Tok::Call(3)]); // executors are no cancellers
     s.cancel(t, &Op(o2), 2, &[Tok::Call(2)]);
+    // ---------------------------------------------------------------------------------------
+    // batches: every context of one payload needs its OWN executor authorization, also when the
+    // same executor is named for several of them
+    t.seq("directed batched contexts same executor start=50 min=0 prop=1 exec=3.4 admin=-");
+    let mut s = Sim::new(50, 0, &[1], &[3, 4], None);
+    let b1 = s.def(t, od(0, 0, &[U(11)], Zero, 1));
+    let b2 = s.def(t, od(0, 0, &[U(12)], Zero, 2));
+    let b3 = s.def(t, od(0, 0, &[U(13)], Zero, 3));
+    let b4 = s.def(t, od(0, 0, &[U(14)], Zero, 4));
+    for k in [b1, b2, b3, b4] {
+        s.sched(t, k, 0, 1, &[Tok::Call(1)]);
+    }
+    // executor 3 signed for the first context only / the second only / neither; executor 4 signed the second
+    s.check(t, &[md(Zero, 1, Some(3)), md(Zero, 2, Some(3))], &[Ctx::Def(b1), Ctx::Def(b2)], &[Tok::Exec(3, 0)]);
+    s.check(t, &[md(Zero, 1, Some(3)), md(Zero, 2, Some(3))], &[Ctx::Def(b1), Ctx::Def(b2)], &[Tok::Exec(3, 1)]);
+    s.check(t, &[md(Zero, 1, Some(3)), md(Zero, 2, Some(3))], &[Ctx::Def(b1), Ctx::Def(b2)], &[]);
+    s.check(t, &[md(Zero, 1, Some(3)), md(Zero, 2, Some(3))], &[Ctx::Def(b1), Ctx::Def(b2)], &[Tok::Exec(3, 0), Tok::Exec(4, 1)]);
+    // both signed: both consumed
+    s.check(t, &[md(Zero, 1, Some(3)), md(Zero, 2, Some(3))], &[Ctx::Def(b1), Ctx::Def(b2)], &[Tok::Exec(3, 0), Tok::Exec(3, 1)]);
+    // different executors on one payload, the second one missing
+    s.check(t, &[md(Zero, 3, Some(3)), md(Zero, 4, Some(4))], &[Ctx::Def(b3), Ctx::Def(b4)], &[Tok::Exec(3, 0)]);
+    s.check(t, &[md(Zero, 3, Some(3)), md(Zero, 4, Some(4))], &[Ctx::Def(b3), Ctx::Def(b4)], &[Tok::Exec(3, 0), Tok::Exec(4, 1)]);
     // ---------------------------------------------------------------------------------------
     t.seq("directed admin handover start=1000 min=2 prop=1 exec=- admin=-");
     let mut s = Sim::new(1000, 2, &[1], &[], None);
